@@ -1002,7 +1002,7 @@ def make_check():
         PROP, pkg="colloc", props="Proofs.Props.C04", driver="drv_c04",
         lemma_files=["Proofs/Lemmas/GeoIndex.lean", "Proofs/Lemmas/Collocate.lean", "Proofs/Lemmas/Binning.lean",
                      "Proofs/Lemmas/Assemble.lean", "Proofs/Lemmas/Pipeline.lean", "Proofs/Lemmas/Main.lean",
-                     "Proofs/Lemmas/History.lean"],
+                     "Proofs/Lemmas/History.lean", "Proofs/Lemmas/Spatial.lean"],
         model_files=["Model/GeoIndex.lean", "Model/Collocate.lean"],
         trusted=["hand-written model Model/Collocate.lean (+ Model/GeoIndex.lean) tied to typhon/collocations/collocator.py by the "
                  "correspondence run of this check (driver drv_c04: datasets, recorded raw tree answers, the permutation of every "
@@ -1011,7 +1011,7 @@ def make_check():
                  "scikit-learn trees (contract = hypothesis of the theorems), xarray sel/sortby/stack/isel, pandas Grouper/searchsorted/"
                  "loc slicing, pd.unique are modelled, not verified",
                  "float chord distance vs threshold is validated with a 1e-7 margin, not proved"],
-        assumptions=["both max_interval and max_distance are given; datasets are non-empty and uniquely labelled on the shared dimension",
+        assumptions=["max_distance is given; max_interval is given or None (spatial-only search); datasets are uniquely labelled on the shared dimension",
                      "times are datetime64[ns] without NaT; start/end are whole microseconds",
                      "max_interval has microsecond resolution (Python timedelta); it is given as number, unit string or timedelta object",
                      "lat/lon share their first dimension with time (docstring); (scnpos, scnline) storage only on the direct path"])
